@@ -7,5 +7,6 @@ token, drop it, open / close a group — is what the character classification of
 the ignored classes are dropped, every other character ends up in a token or is a bracket that opens / closes a group.
 Re-checked by the kernel on every run. -/
 namespace Oblig
-theorem retSim_cfg3 : Lex.retCheck (Scan.Ign.ofBits 3) Gen.Cfg3.cfg = true := by decide +kernel
+theorem retSim_cfg3 : Lex.retCheck (Scan.Ign.ofBits 3) Gen.Cfg3.cfg = true := by
+  rw [← Lex.retCheckF_eq]; decide +kernel
 end Oblig
